@@ -73,6 +73,19 @@ def make_spec(st, idx, tier):
     # the client object that just experienced failed writes is used again, without a fault: it must write exactly what the
     # fault-free run wrote (nothing half-done is remembered, nothing is skipped)
     seq.append(dict(k="poll", role="after_faults", fresh_client=False, national_summary=ns))
+    # a rejected request in the middle of a client's life: the operator names another election / office / unit type (the
+    # library raises); nothing may be written for it, and a later national-summary call on the same client still belongs
+    # to the completed run -- it is saved under that run's election, office and unit type, nowhere else
+    if chance(rng, 0.5):
+        w = spec["world"]
+        other_office = choice(rng, [o for o in ["G", "S", "H", "P"] if o != w["office"]])
+        other_ut = choice(rng, [u for u in ["precinct", "county", "precinct-district", "county-district"] if u != w["unit_type"]])
+        bad = choice(rng, [dict(election_id="2021-11-02_VA_G"), dict(office=other_office), dict(unit_type=other_ut),
+                           dict(office=other_office, unit_type=other_ut)])
+        seq.append(dict(k="poll", role="rejected", fresh_client=False, override=dict(request_ids=bad)))
+        if ns is not None:
+            seq.append(dict(k="poll", role="summary_again", fresh_client=False, national_summary=ns, override=dict(summary_only=True)))
+        seq.append(dict(k="poll", role="after_rejected", fresh_client=False, national_summary=ns))
     # call history in one process: the same argument objects (model_parameters dict, config, frame) are passed again to
     # fresh clients with other save_output choices -- an earlier request must not leak into a later one
     if chance(rng, 0.6):
@@ -141,6 +154,21 @@ class Checker(C.BaseChecker):
         st.evaluations += 1
         summary = op.get("national_summary") is not None
         live, gauss, pred, local = permitted(world, p, rec, summary)
+        if role == "rejected":
+            # the request names ids the configuration does not have: it must be refused and write nothing remotely (local
+            # 'config' / 'data' files are what save_output asked for, under the ids the request named)
+            ids = dict(election_id=world["election_id"], office=world["office"], unit_type=world["unit_type"])
+            ids.update(p["request_ids"])
+            live, gauss, pred = [], [], []
+            local = ([f"config/{ids['election_id']}.json"] if "config" in p["save_output"] else []) + \
+                    ([f"data/{ids['election_id']}/{ids['office']}/data_{ids['unit_type']}.csv"] if "data" in p["save_output"] else [])
+            if rec.ok:
+                st.probes["request_with_other_ids_was_accepted"] += 1
+                return []
+            st.probes["rejected_request_on_a_used_client:" + "+".join(sorted(p["request_ids"]))] += 1
+        if role == "summary_again":
+            live, gauss, local = [], [], []
+            pred = pred[-1:] if (pred and self.base is not None and self.base.ok) else []
         out = []
         eid = world["election_id"]
         keys = [x["key"] for x in rec.puts]
@@ -177,6 +205,19 @@ class Checker(C.BaseChecker):
                 out.append(self.v("unrequested_local_write", f"local file {rel!r} written with save_output={p['save_output']}", **flags))
             if ev == "os.mkdir" and rel not in allowed_dirs:
                 out.append(self.v("unrequested_local_write", f"local directory {rel!r} created with save_output={p['save_output']}", **flags))
+        if role == "rejected":
+            st.state(("rejected", p["app_env"], tuple(sorted(p["save_output"])), p["pi_method"], tuple(sorted(p["request_ids"]))), True)
+            return out
+        if role == "summary_again":
+            ok_keys = [x["key"] for x in rec.puts if x["ok"]]
+            if self.base is not None and self.base.ok:
+                if not rec.ok:
+                    out.append(self.v("summary_after_rejected_request", f"national summary after a rejected request failed: {rec.exc_type}: {rec.exc_msg}", **flags))
+                elif ok_keys != pred:
+                    out.append(self.v("summary_after_rejected_request", f"national summary of the completed run was saved as {ok_keys}, it belongs under {pred}", **flags))
+                st.probes["summary_call_after_rejected_request"] += 1
+            st.state(("summary_again", p["app_env"], tuple(sorted(p["save_output"])), bool(pred)), True)
+            return out
         if fault is None:
             completed = rec.ok
             if not rec.ok and not gate:
